@@ -14,7 +14,7 @@ import contextlib
 from pybufrkit.errors import PyBufrKitError
 from pybufrkit.coder import Coder, CoderState, BSRModifier
 from pybufrkit.tables import TableGroupKey, TableGroupCacheManager
-from pybufrkit.descriptors import Descriptor, AssociatedDescriptor, SkippedLocalDescriptor
+from pybufrkit.descriptors import Descriptor, AssociatedDescriptor, SkippedLocalDescriptor, flat_member_ids
 
 __all__ = ['loads_compiled_template', 'TemplateCompiler', 'CompiledTemplateManager', 'process_compiled_template']
 
@@ -227,6 +227,11 @@ class CompilerState(CoderState):
         super(CompilerState, self).cancel_new_refvals()
         self.add_statement(StateMethodCall(get_func_name()))
 
+    def wait_for_qa_info(self):
+        # Where the quality information begins and ends depends on the data. It is
+        # tracked at runtime, see TemplateCompiler.update_qa_info_status
+        self.add_statement(StateMethodCall(get_func_name()))
+
 
 class TemplateCompiler(Coder):
     """
@@ -246,12 +251,18 @@ class TemplateCompiler(Coder):
         :return: CompiledTemplate
         """
         state = CompilerState(table_group, template)
+        # Only a template with the operator 222000 has quality information to keep track of
+        state.has_qa_info = 222000 in flat_member_ids(template)
         self.process_template(state, bit_operator=None, template=template)
 
         return state.compiled_template
 
     def process_section(self, bufr_message, bit_operator, section):
         pass
+
+    def update_qa_info_status(self, state, bit_operator, descriptor):
+        if state.has_qa_info:
+            state.add_statement(CoderMethodCall(get_func_name(), (descriptor,)))
 
     def process_bitmap_definition(self, state, bit_operator, descriptor):
         n_031031 = state.n_031031
